@@ -33,11 +33,12 @@ pub fn write_file(key: &String, content: &Content, to: &PathBuf) -> std::io::Res
     result
 }
 
-// `<name>.md.<n>.tmp` next to the note, never an existing file
+// `.iwe-<n>.tmp` next to the note, never an existing file. The name does not contain the note's
+// name, so it stays within the file name length limit however long the note's name is.
 fn create_temporary(path: &PathBuf) -> std::io::Result<(PathBuf, fs::File)> {
     let mut last_error = std::io::Error::from(std::io::ErrorKind::AlreadyExists);
     for n in 0..100 {
-        let tmp = path.with_extension(format!("md.{}.tmp", n));
+        let tmp = path.with_file_name(format!(".iwe-{}.tmp", n));
         match fs::OpenOptions::new().write(true).create_new(true).open(&tmp) {
             Ok(file) => return Ok((tmp, file)),
             Err(error) if error.kind() == std::io::ErrorKind::AlreadyExists => last_error = error,
